@@ -96,6 +96,9 @@ type relay struct {
 	// output stores stream output that is ready to be sent over HTTP/2. It provides a way to
 	// guarantee frame order without blocking on each frame being sent.
 	output chan queuedFrame
+	// writerDone is closed when the goroutine consuming `output` has exited. Nothing reads
+	// `output` after that, so producers must not wait for room in it.
+	writerDone chan struct{}
 
 	enableDebugLogs *bool
 
@@ -128,6 +131,7 @@ func newRelay(
 		connectionWindowSize: defaultInitialWindowSize,
 		outputBuffers:        make(map[uint32]*outputBuffer),
 		output:               make(chan queuedFrame, outputChannelSize),
+		writerDone:           make(chan struct{}),
 		enableDebugLogs:      enableDebugLogs,
 	}
 	ret.encoder = hpack.NewEncoder(&ret.reencoded)
@@ -162,6 +166,7 @@ func (r *relay) relayFrames(closing chan bool) error {
 
 	// This writer goroutine consumes the strictly ordered frames in `r.output` and delivers them.
 	go func() {
+		defer close(r.writerDone)
 		var err error
 		for {
 			select {
@@ -361,7 +366,7 @@ func (r *relay) updateWindow(f *http2.WindowUpdateFrame) {
 	r.flowMu.Lock()
 	w := r.outputBuffer(f.StreamID)
 	w.windowSize += int(f.Increment)
-	w.emitEligibleFrames(r.output, &r.connectionWindowSize)
+	w.emitEligibleFrames(r.output, r.writerDone, &r.connectionWindowSize)
 	r.flowMu.Unlock()
 }
 
@@ -390,7 +395,7 @@ func (r *relay) data(id uint32, data []byte, streamEnded bool) error {
 
 		r.flowMu.Lock()
 		w.enqueue(f)
-		w.emitEligibleFrames(r.output, &r.connectionWindowSize)
+		w.emitEligibleFrames(r.output, r.writerDone, &r.connectionWindowSize)
 		r.flowMu.Unlock()
 
 		// Some protocols send empty data frames with END_STREAM so the check is done here at the end
@@ -469,14 +474,14 @@ func (r *relay) enqueueFrame(f queuedFrame) {
 	r.flowMu.Lock()
 	w := r.outputBuffer(f.StreamID())
 	w.enqueue(f)
-	w.emitEligibleFrames(r.output, &r.connectionWindowSize)
+	w.emitEligibleFrames(r.output, r.writerDone, &r.connectionWindowSize)
 	r.flowMu.Unlock()
 }
 
 func (r *relay) sendQueuedFramesUnderWindowSize() {
 	r.flowMu.Lock()
 	for _, w := range r.outputBuffers {
-		w.emitEligibleFrames(r.output, &r.connectionWindowSize)
+		w.emitEligibleFrames(r.output, r.writerDone, &r.connectionWindowSize)
 	}
 	r.flowMu.Unlock()
 }
@@ -555,13 +560,19 @@ type outputBuffer struct {
 // given connection window size. It updates the given connectionWindowSize if applicable.
 //
 // This is not thread-safe. The caller should be holding `relay.flowMu`.
-func (w *outputBuffer) emitEligibleFrames(output chan queuedFrame, connectionWindowSize *int) {
+func (w *outputBuffer) emitEligibleFrames(output chan queuedFrame, writerDone chan struct{}, connectionWindowSize *int) {
 	for e := w.queue.Front(); e != nil; {
 		f := e.Value.(queuedFrame)
 		if f.flowControlSize() > *connectionWindowSize || f.flowControlSize() > w.windowSize {
 			break
 		}
-		output <- f
+		select {
+		case output <- f:
+		case <-writerDone:
+			// This direction has ended (the peer relay can still get here while it handles a
+			// WINDOW_UPDATE or SETTINGS frame). The frames have nowhere to go any more.
+			return
+		}
 
 		*connectionWindowSize -= f.flowControlSize()
 		w.windowSize -= f.flowControlSize()
